@@ -46,7 +46,7 @@ COMPONENTS = {
     "stub": ["file system (SimFS image + per-path fault plan)", "the consumer in reader-level "
              "walks"],
 }
-PROBES = ["only_in_cwd_off_path", "pushback_while_include_reader_active", "include_exhausted_with_items_pushed_back",
+PROBES = ["same_file_included_twice", "only_in_cwd_off_path", "pushback_while_include_reader_active", "include_exhausted_with_items_pushed_back",
           "nested_depth_2", "shadowing_decoy_present", "include_first_line_of_main",
           "include_last_line_of_main", "fragment_starts_with_label", "fragment_starts_with_c",
           "unresolved_include_checked", "resolved_include_compared", "directory_named_like_file",
@@ -156,6 +156,20 @@ def generate(run_seed, cfg):
                     runs.append((other[0], other[1], None))
                     break
     names = ["inc_a.inc", "part_b.h", "c_frag.f90"][: len(runs)]
+    twice = False
+    if not absent_mode and len(runs) == 1 and _balanced(cstmts, first[0], first[1]) and \
+            sw.random() < 0.5 and first[1] - first[0] < 6:
+        # the same file included twice in a row: the run is duplicated in the inlined program
+        # and both copies are replaced by an INCLUDE of one and the same file
+        i, j = first
+        dup = j - i + 1
+        lines = lines[: j + 1] + lines[i: j + 1] + lines[j + 1:]
+        first_of = first_of[: j + 1] + first_of[i: j + 1] + first_of[j + 1:]
+        groups = groups[: j + 1] + groups[i: j + 1] + groups[j + 1:]
+        runs.append((j + 1, j + dup, None))
+        names = ["inc_a.inc", "inc_a.inc"]
+        n = len(lines)
+        twice = True
     inc_fmt = [[sw.choice(["include", "INCLUDE", "Include"]), sw.choice(["'", '"']),
                 (sw.choice([6, 6, 8]) if form == "fixed" else sw.choice([0, 1, 3, 6]))]
                for _ in runs]
@@ -204,7 +218,7 @@ def generate(run_seed, cfg):
                 fault.setdefault(nm, "decoy")
     # ---- optional observation-only / decode faults on a resolvable file
     obs = None
-    cand = [nm for nm in names if nm not in absent]
+    cand = [] if twice else [nm for nm in names if nm not in absent]
     if cand and sw.random() < 0.12:
         nm = sw.choice(cand)
         obs = [nm, sw.choice(["eacces", "empty"])]
@@ -398,6 +412,8 @@ def execute(case):
                 probe("include_first_line_of_main")
             if r[2] is None and r[1] == len(lines) - 1:
                 probe("include_last_line_of_main")
+        if len(set(case["names"])) < len(case["names"]):
+            probe("same_file_included_twice")
         for nm, how in case["fault"].items():
             if how == "decoy":
                 probe("shadowing_decoy_present")
@@ -607,6 +623,8 @@ def shrink_candidates(case):
         c = copy.deepcopy(case)
         c["ignore_comments"] = True
         yield c
+    if len(set(case["names"])) < len(case["names"]):
+        return  # the same file included twice: structure must stay as it is
     # inline a run back (never the absent one)
     for k in range(len(case["runs"]) - 1, -1, -1):
         nm = case["names"][k]
